@@ -31,6 +31,8 @@ type side struct {
 	cfg       *pairCfg
 	server    bool
 	nsetup    int
+	got       []int
+	writer    api.ShipConnectionDataWriterInterface
 	complete  bool
 	idrep     bool
 	done      bool
@@ -54,7 +56,8 @@ func (s *side) WriteMessageToWebsocketConnection(b []byte) error {
 	if s.closed {
 		return errors.New("connection is closed")
 	}
-	*s.out = append(*s.out, wireItem{frame: append([]byte(nil), b...)})
+	// like the websocket's write channel the queue holds the caller's slice, not a copy
+	*s.out = append(*s.out, wireItem{frame: b})
 	return nil
 }
 func (s *side) CloseDataConnection(code int, reason string) {
@@ -108,16 +111,21 @@ func (s *side) HandleShipHandshakeStateUpdate(_ string, st model.ShipState) {
 		*s.trusted = true
 	}
 }
-func (s *side) SetupRemoteDevice(string, api.ShipConnectionDataWriterInterface) api.ShipConnectionDataReaderInterface {
+func (s *side) SetupRemoteDevice(_ string, w api.ShipConnectionDataWriterInterface) api.ShipConnectionDataReaderInterface {
 	s.mu.Lock()
 	s.nsetup++
+	s.writer = w
 	s.mu.Unlock()
-	return &nullReader{}
+	return &nullReader{got: &s.got}
 }
 
-type nullReader struct{}
+type nullReader struct{ got *[]int }
 
-func (nullReader) HandleShipPayloadMessage([]byte) {}
+func (n *nullReader) HandleShipPayloadMessage(m []byte) {
+	if n.got != nil {
+		*n.got = append(*n.got, payloadID(m))
+	}
+}
 
 func wireCode(w wireItem) int {
 	if w.closed {
@@ -161,12 +169,13 @@ func wireCode(w wireItem) int {
 var labelNames = []string{"LDeliverCS", "LDeliverSC", "LApprove", "LCancel", "LTimeoutC", "LTimeoutS", "LDeferredC", "LDeferredS"}
 
 type pairScen struct {
-	cfg     pairCfg
-	labels  []string
-	sums    []string
-	human   []map[string]any
-	final   string
-	discard bool
+	cfg                          pairCfg
+	labels                       []string
+	sums                         []string
+	human                        []map[string]any
+	final                        string
+	csSent, csGot, scSent, scGot []int
+	discard                      bool
 }
 
 func runPair(r *vh.Rng, directed int) *pairScen {
@@ -354,6 +363,25 @@ func runPair(r *vh.Rng, directed int) *pairScen {
 		}
 		exec(lb)
 	}
+	// SPINE burst on a completed, open pair: written back to back, delivered afterwards
+	cs1, ss1 := cl.conn.VerifSnapshot(), sv.conn.VerifSnapshot()
+	if cs1.State == 38 && ss1.State == 38 && !cl.closed && !sv.closed && cl.writer != nil && sv.writer != nil && len(qcs) == 0 && len(qsc) == 0 {
+		k := 2 + r.Intn(6)
+		for i := 1; i <= k; i++ {
+			sc.csSent = append(sc.csSent, 100+i)
+			cl.writer.WriteShipMessageWithPayload([]byte(fmt.Sprintf(`{"datagram":{"n":%d}}`, 100+i)))
+			sc.scSent = append(sc.scSent, 200+i)
+			sv.writer.WriteShipMessageWithPayload([]byte(fmt.Sprintf(`{"datagram":{"n":%d}}`, 200+i)))
+		}
+		for len(qcs) > 0 {
+			deliver(&qcs, sv)
+		}
+		for len(qsc) > 0 {
+			deliver(&qsc, cl)
+		}
+		sc.csGot = append([]int(nil), sv.got...)
+		sc.scGot = append([]int(nil), cl.got...)
+	}
 	cl.mu.Lock()
 	cl.done = true
 	cl.mu.Unlock()
@@ -364,10 +392,18 @@ func runPair(r *vh.Rng, directed int) *pairScen {
 }
 
 func (sc *pairScen) toCase() vh.Case {
-	coq := fmt.Sprintf("mkPairCase %s %s %s", sc.cfg.coq(), vh.List(sc.labels), vh.List(sc.sums))
+	ints := func(l []int) string {
+		x := make([]string, len(l))
+		for i, v := range l {
+			x[i] = fmt.Sprint(v)
+		}
+		return vh.List(x)
+	}
+	coq := fmt.Sprintf("mkPairCase %s %s %s %s %s %s %s", sc.cfg.coq(), vh.List(sc.labels), vh.List(sc.sums), ints(sc.csSent), ints(sc.csGot), ints(sc.scSent), ints(sc.scGot))
 	kind := fmt.Sprintf("paired=%v auto=%v allow=%v approves=%v cancels=%v", sc.cfg.paired, sc.cfg.auto, sc.cfg.allow, sc.cfg.approves, sc.cfg.cancels)
 	return vh.Case{Coq: coq, Nontrivial: len(sc.labels) >= 6, Key: coq, Kind: kind,
-		Sample: map[string]any{"config": fmt.Sprintf("%+v", sc.cfg), "labels": sc.labels, "summaries_after_each_label": sc.sums}}
+		Sample: map[string]any{"config": fmt.Sprintf("%+v", sc.cfg), "labels": sc.labels, "summaries_after_each_label": sc.sums,
+			"spine_burst": map[string]any{"client_wrote": sc.csSent, "server_got": sc.csGot, "server_wrote": sc.scSent, "client_got": sc.scGot}}}
 }
 
 func mainPair(seed uint64, n int, out string, parallel int) {
